@@ -13,8 +13,8 @@ from sansldap.asn1 import ASN1Reader, ASN1Tag, ASN1Writer, TagClass
 
 CUSTOM_CONTROL_OID = "1.2.3.4.5.6"
 CUSTOM_CONTROL_MAGIC = b"CC"
-CUSTOM_FILTER_ID = 1024
-CUSTOM_CRED_ID = 1024
+CUSTOM_FILTER_ID = 31
+CUSTOM_CRED_ID = 31
 
 
 @dataclasses.dataclass(frozen=True)
